@@ -28,7 +28,9 @@ RULE = (
     "lowering an expression is stored as the representative of a callee clock domain only on the edge where its clock_domain != None; "
     "whether a connection is checked does not depend on the callee port's direction. R8 in check_assign_clock_domain the writes of "
     "ClockDomain::Inferred to the destination are reachable also where the destination's domain is not Implicit (a block-local `let`/`var`, "
-    "created with ClockDomain::None, adopts the domain of what it holds instead of staying compatible with everything)."
+    "created with ClockDomain::None, adopts the domain of what it holds instead of staying compatible with everything). R9 the converter "
+    "of a function declaration writes the clock_domain of the function's result type from the return variable's path entry after the "
+    "body was converted (and the return statement reaches check_assign_clock_domain, R5): a body that reads a module signal cannot launder it."
 )
 
 CRATES = ["veryl_analyzer"]
@@ -52,6 +54,7 @@ MUST_CALL = {
     OP + "eval_type_ternary": "ternary operator operands",
     OP + "eval_type_concatenation": "concatenation operands",
     "veryl_analyzer::ir::variable::VarPathSelect::to_assign_destination": "index/select expressions of an assignment destination",
+    "veryl_analyzer::conv::statement::<impl veryl_analyzer::conv::Conv<&" + G + "ReturnStatement> for veryl_analyzer::ir::statement::Statement>::conv": "function return value (the returned expression's domain reaches the result, F32)",
 }
 ASSIGN_CALLERS_FLOOR = 3
 
@@ -372,6 +375,7 @@ def run(world, tier, info, only=None):
     _compatible_paths(ck, w)
     _connect_check_independent_of_direction(ck, w)
     _assign_inference(ck, w)
+    _function_result_domain(ck, w)
     # ---------------- R5 must-call table ----------------------------------------------------------------------
     for p, why in sorted(MUST_CALL.items()):
         if p not in w.fns:
@@ -767,6 +771,50 @@ def _assign_inference(ck, w):
               "the destination's domain is inferred only where it is ClockDomain::Implicit: a `let` / `var` declared inside an always block "
               "has ClockDomain::None, keeps it, and None is compatible with every domain - a value of one domain copied into such a local "
               "and from there to a signal of another domain crosses unreported")
+
+
+def _function_result_domain(ck, w):
+    """R9: function_call starts from `func.r#type` and merges the argument domains; what the body reads besides its arguments (a signal of
+    the enclosing module) reaches the caller only if the converter of the function declaration copies the return variable's inferred
+    domain into `r#type` (the return statement itself is in the must-call table of R5)."""
+    import taint
+    P = "veryl_analyzer::conv::declaration::conv_function"
+    if P not in w.fns:
+        ck.missing("R9", P)
+        return
+    sm = w.fns[P]
+    g = Fn(w.mir(P))
+    ws = []
+    for bi, si, st in flow.field_writes(g, r"ir::comptime::Comptime$|ir::Comptime$", "clock_domain"):
+        rv = st[2]
+        if rv[0] == "use" and rv[1][0] != "k" and any(x[0] == "call" and (x[1] or "").endswith("Context::block") for x in g.prov(rv[1], depth=16)):
+            ws.append(st)
+    ck.ob("R9", "function/result-domain-written", bool(ws), site(sm, ws[0][3] if ws else None),
+          "the function's result type receives a clock domain computed while its body was converted" if ws else
+          "conv_function never writes the clock_domain of the function's result type from the body conversion: the result is ClockDomain::None "
+          "whatever the body returns, and `assign o_b = h();` with `h` returning a signal of another domain is accepted")
+    ok = False
+    where = None
+    for q, x in sorted(w.fns.items()):
+        if not q.startswith(P + "::{closure") or x.get("alias_of"):
+            continue
+        if not any((c["c"] or "").endswith("Context::find_path") for c in x["calls"]) or not any((c["c"] or "").endswith("get_return_str") for c in x["calls"]):
+            continue
+        gq = Fn(w.mir(q))
+        tn = taint.Taint(gq, seed_call=lambda t: (t.get("callee") or "").endswith("Context::find_path"),
+                         pure=re.compile(r"Option::<T>::map$|Try>::branch$|Clone>::clone$"))
+        for bi, b in enumerate(gq.blocks):
+            for st in b["s"]:
+                if st[0] == "=" and st[1][0] == 0:
+                    ops = [o for o in st[2][1:] if isinstance(o, list) and o and o[0] in ("c", "m")]
+                    if st[2][0] == "agg":
+                        ops = [o for o in st[2][2] if isinstance(o, list) and o and o[0] in ("c", "m")]
+                    if any(tn.op_tainted(o) for o in ops):
+                        ok = True
+                        where = (x, st[3])
+    ck.ob("R9", "function/result-domain-from-return-variable", ok, site(*where) if where else site(sm),
+          "the body conversion returns the domain found in the return variable's path entry (Context::find_path(get_return_str()))" if ok else
+          "no closure of conv_function hands the return variable's domain (Context::find_path of get_return_str()) back to the converter")
 
 
 def _matches_join(g, b):
